@@ -10,9 +10,9 @@ import (
 // random programs over a line alphabet much larger than what TLC enumerates (DESIGN.md §4.4).
 
 type fgen struct {
-	r   *rand.Rand
-	n   int
-	tag string
+	r                          *rand.Rand
+	n                          int
+	tag                        string
 	skipProb, parProb, badProb float64
 	moveProb                   float64
 }
@@ -281,16 +281,16 @@ func (g *fgen) steps(p *program, repeat int, interleave bool) []*Step {
 
 func stdConfigs() map[string]*Cfg {
 	return map[string]*Cfg{
-		"c":  {Dir: sp("@/snaps")},
-		"f":  {Dir: sp("@/snaps"), Filename: sp("custom")},
-		"ut": {Dir: sp("@/snaps"), Update: bp(true)},
-		"uf": {Dir: sp("@/snaps"), Update: bp(false)},
-		"e":  {Dir: sp("@/snaps"), Filename: sp("ext"), Ext: sp(".txt")},
-		"d2": {Dir: sp("@/other/deep")},
-		"fn":  {Filename: sp("custom")}, // default directory, custom file name
-		"nc":  {Dir: sp("@/./snaps//")},  // a Dir that is not in cleaned form
+		"c":   {Dir: sp("@/snaps")},
+		"f":   {Dir: sp("@/snaps"), Filename: sp("custom")},
+		"ut":  {Dir: sp("@/snaps"), Update: bp(true)},
+		"uf":  {Dir: sp("@/snaps"), Update: bp(false)},
+		"e":   {Dir: sp("@/snaps"), Filename: sp("ext"), Ext: sp(".txt")},
+		"d2":  {Dir: sp("@/other/deep")},
+		"fn":  {Filename: sp("custom")},      // default directory, custom file name
+		"nc":  {Dir: sp("@/./snaps//")},      // a Dir that is not in cleaned form
 		"gl":  {Dir: sp("@/proj[v2]/sn*ps")}, // glob metacharacters in the path
-		"bad": {Dir: sp("@/blocker/snaps")}, // "blocker" is a regular file: nothing can be created below it
+		"bad": {Dir: sp("@/blocker/snaps")},  // "blocker" is a regular file: nothing can be created below it
 	}
 }
 
